@@ -47,6 +47,7 @@ class RSocketClient(RSocketBase):
         self._transport: Optional[Transport] = None
         self._next_transport = asyncio.Future()
         self._reconnect_task = asyncio.create_task(self._reconnect_listener())
+        self._reconnect_stopped = False
         self._keepalive_task = None
 
         super().__init__(handler_factory=handler_factory,
@@ -117,6 +118,8 @@ class RSocketClient(RSocketBase):
     async def _close(self, reconnect=False):
 
         if not reconnect:
+            # the listener may be tearing down the previous connection right now, where a cancellation is absorbed
+            self._reconnect_stopped = True
             await cancel_if_task_exists(self._reconnect_task)
         else:
             logger().debug('%s: Closing before reconnect', self._log_identifier())
@@ -149,6 +152,10 @@ class RSocketClient(RSocketBase):
                     self._connecting = True
                     self._connect_request_event.clear()
                     await self._close(reconnect=True)
+
+                    if self._reconnect_stopped:
+                        break
+
                     self._next_transport = create_future()
                     await self.connect()
                 finally:
